@@ -22,6 +22,16 @@
 //	                          of its unlimited tail -- both are recomputed by the model from <segs> and must agree;
 //	                          the i-th Shoot sleeps dur_i ms (25 ms when not given)
 //
+//	cfg <form>,<form>,...     one pool per <form>; the pool's discard_overflow key is written as
+//	                          absent | true | false | envtrue | envfalse (a ${env:...} placeholder resolving to true/false);
+//	                          the YAML file goes through the REAL CLI config reader (cli.readConfig via the verif hook, in a
+//	                          subprocess); observed: the DiscardOverflow of every decoded pool
+//	ph <inst> <behind> <ordinary> <episodes>
+//	                          the REAL engine with the REAL phout aggregator (afero mem fs) and a gun that reports samples
+//	                          obtained from netsample.Acquire; <inst> instances, <episodes> overload episodes: <inst> tokens whose
+//	                          shots take 2.6 s, <behind> tokens 100..300 ms behind them (picked up >= 2.3 s late), then
+//	                          <ordinary> on-time tokens 10 ms apart; every line of the phout file is judged
+//
 // Observation: one field per token, only booleans / inequalities, never raw times:
 //
 //	w:   <ok><slow><not_early><late_enter><late_ret>   (IsSlowDown after Wait; measured instants before/after Wait
@@ -32,6 +42,8 @@
 //	prof: per finite token <F|D><not before its configured offset><late2s>, then c=<lt|eq|gt> (events vs finite tokens;
 //	      lt|ge when the profile has an unlimited tail)
 //	proftail (same run as prof): t=<no shot of the unlimited tail before the tail's configured start>
+//	cfg: one bit per pool (DiscardOverflow)
+//	ph:  N=<lines> F=<lines tagged by the gun with net 0 / proto 200> D=<lines 'discarded' with net 777> X=<other lines> S=<Shoot calls>
 //	eng: <F|D><not_early><late2s><sample_ok>            (F fired / D reported as discarded; instant of Shoot entry or of
 //	                                                     the discard report against the token; D: net code 777 + tag)
 //
@@ -43,16 +55,23 @@ package main
 import (
 	"context"
 	"fmt"
+	"os"
+	"os/exec"
+	"path/filepath"
 	"strconv"
 	"strings"
 	"sync"
 	"sync/atomic"
 	"time"
 
+	"github.com/spf13/afero"
+	"github.com/yandex/pandora/cli"
 	"github.com/yandex/pandora/core"
 	"github.com/yandex/pandora/core/aggregator/netsample"
 	"github.com/yandex/pandora/core/coreutil"
 	"github.com/yandex/pandora/core/engine"
+	coreimport "github.com/yandex/pandora/core/import"
+	"github.com/yandex/pandora/core/register"
 	"github.com/yandex/pandora/core/schedule"
 	"github.com/yandex/pandora/lib/monitoring"
 	"go.uber.org/zap"
@@ -565,6 +584,166 @@ func runProf(fields []string, tailOnly bool) string {
 	return "disturbed"
 }
 
+// ---- the CLI config reader ----
+
+type cfgGun struct{}
+
+func (cfgGun) Bind(core.Aggregator, core.GunDeps) error { return nil }
+func (cfgGun) Shoot(core.Ammo)                          {}
+
+func cliSub(file string) {
+	coreimport.Import(afero.NewMemMapFs())
+	register.Gun("verifgun", func() core.Gun { return cfgGun{} })
+	conf := cli.VerifReadConfig([]string{file})
+	var bits string
+	for _, p := range conf.Engine.Pools {
+		bits += b(p.DiscardOverflow)
+	}
+	fmt.Println("RESULT " + bits)
+}
+
+func runCfg(forms string, idx int) string {
+	var y strings.Builder
+	y.WriteString("pools:\n")
+	env := os.Environ()
+	for i, f := range strings.Split(forms, ",") {
+		fmt.Fprintf(&y, "  - id: p%d\n    gun: {type: verifgun}\n    ammo: {type: dummy}\n    result: {type: discard}\n", i)
+		y.WriteString("    rps: {type: once, times: 1}\n    startup: {type: once, times: 1}\n")
+		switch f {
+		case "true", "false":
+			fmt.Fprintf(&y, "    discard_overflow: %s\n", f)
+		case "envtrue", "envfalse":
+			fmt.Fprintf(&y, "    discard_overflow: ${env:VERIF_DO_%d}\n", i)
+			env = append(env, fmt.Sprintf("VERIF_DO_%d=%s", i, f[3:]))
+		}
+	}
+	dir, err := os.MkdirTemp("", "a04-hC04-")
+	if err != nil {
+		return "tmpdir-error"
+	}
+	defer os.RemoveAll(dir)
+	file := filepath.Join(dir, fmt.Sprintf("load-%d.yaml", idx))
+	if err := os.WriteFile(file, []byte(y.String()), 0o644); err != nil {
+		return "write-error"
+	}
+	exe, _ := os.Executable()
+	cmd := exec.Command(exe, "clisub", file)
+	cmd.Env = env
+	cmd.Dir = dir
+	out, err := cmd.Output()
+	if err != nil {
+		return "config-rejected"
+	}
+	for _, l := range strings.Split(string(out), "\n") {
+		if strings.HasPrefix(l, "RESULT ") {
+			return l[7:]
+		}
+	}
+	return "no-result"
+}
+
+// ---- the real phout aggregator, a gun that uses netsample.Acquire ----
+
+type phGun struct {
+	t0     time.Time
+	slow   []int64 // starts of the windows in which a Shoot takes 2.6 s
+	aggr   netsample.Aggregator
+	shoots *atomic.Int64
+}
+
+func (g *phGun) Bind(a core.Aggregator, _ core.GunDeps) error {
+	g.aggr = netsample.UnwrapAggregator(a)
+	return nil
+}
+
+func (g *phGun) Shoot(core.Ammo) {
+	g.shoots.Add(1)
+	at := time.Since(g.t0).Nanoseconds()
+	s := netsample.Acquire("verifgun")
+	d := ms
+	for _, w := range g.slow {
+		if at >= w-20*ms && at < w+80*ms {
+			d = 2600 * ms
+		}
+	}
+	time.Sleep(time.Duration(d))
+	s.SetProtoCode(200)
+	g.aggr.Report(s)
+}
+
+func runPh(fields []string) string {
+	at := func(i int) int64 { v, _ := strconv.ParseInt(fields[i], 10, 64); return v }
+	inst, behind, ordinary, episodes := at(0), at(1), at(2), at(3)
+	var toks, slow []int64
+	base := int64(0)
+	for e := int64(0); e < episodes; e++ {
+		slow = append(slow, base)
+		for i := int64(0); i < inst; i++ {
+			toks = append(toks, base)
+		}
+		for i := int64(0); i < behind; i++ {
+			toks = append(toks, base+100*ms+i*200*ms/behind)
+		}
+		for i := int64(0); i < ordinary; i++ {
+			toks = append(toks, base+2700*ms+i*10*ms)
+		}
+		base += 2700*ms + ordinary*10*ms + 100*ms
+	}
+	for attempt := 0; attempt < maxAttempts; attempt++ {
+		before := disturbances.Load()
+		fs := afero.NewMemMapFs()
+		pc := netsample.DefaultPhoutConfig()
+		pc.Destination = "phout.log"
+		ph, err := netsample.NewPhout(fs, pc)
+		if err != nil {
+			return "phout-error"
+		}
+		sched := &offSchedule{offs: toks}
+		var shoots atomic.Int64
+		t0 := time.Now()
+		sched.Start(t0)
+		conf := engine.Config{Pools: []engine.InstancePoolConfig{{
+			Provider:        endlessProvider{},
+			Aggregator:      netsample.WrapAggregator(ph),
+			NewGun:          func() (core.Gun, error) { return &phGun{t0: t0, slow: slow, shoots: &shoots}, nil },
+			NewRPSSchedule:  func() (core.Schedule, error) { return sched, nil },
+			StartupSchedule: schedule.NewOnce(inst),
+			DiscardOverflow: true,
+		}}}
+		m := engine.Metrics{Request: &monitoring.Counter{}, Response: &monitoring.Counter{}, InstanceStart: &monitoring.Counter{}, InstanceFinish: &monitoring.Counter{}}
+		eng := engine.New(zap.NewNop(), m, conf)
+		ctx, cancel := context.WithTimeout(context.Background(), 40*time.Second)
+		runErr := eng.Run(ctx)
+		cancel()
+		eng.Wait()
+		data, _ := afero.ReadFile(fs, "phout.log")
+		var n, f, d, x int
+		for _, l := range strings.Split(strings.TrimRight(string(data), "\n"), "\n") {
+			if l == "" {
+				continue
+			}
+			n++
+			p := strings.Split(l, "\t")
+			switch {
+			case len(p) == 12 && p[1] == "verifgun" && p[10] == "0" && p[11] == "200":
+				f++
+			case len(p) == 12 && p[1] == "discarded" && p[10] == "777":
+				d++
+			default:
+				x++
+			}
+		}
+		obs := fmt.Sprintf("N=%d F=%d D=%d X=%d S=%d", n, f, d, x, shoots.Load())
+		if runErr != nil {
+			obs = "run-error " + obs
+		}
+		if disturbances.Load() == before {
+			return obs
+		}
+	}
+	return "disturbed"
+}
+
 type oneSchedule struct {
 	t    time.Time
 	used bool
@@ -638,15 +817,23 @@ func runNear(fields []string) string {
 	return strings.Join(obs, " ")
 }
 
-func runCase(c string) string {
+func runCase(c string, idx int) string {
 	f := strings.Split(c, " ")
 	switch f[0] {
+	case "cfg":
+		if len(f) == 2 {
+			return runCfg(f[1], idx)
+		}
 	case "st":
 		if len(f) == 3 {
 			return runSt(f[1:])
 		}
 	case "near":
 		return runNear(f[1:])
+	case "ph":
+		if len(f) == 5 {
+			return runPh(f[1:])
+		}
 	case "prof", "proftail":
 		if len(f) == 6 {
 			return runProf(f[1:], f[0] == "proftail")
@@ -764,6 +951,31 @@ func gen(r *vh.Rand, tier string) []string {
 		}
 		out = append(out, "near "+strings.Join(p, " "))
 	}
+	// discard_overflow through the CLI config reader, every way of writing it, 1..3 pools
+	forms := []string{"absent", "true", "false", "envtrue", "envfalse"}
+	for _, f := range forms {
+		out = append(out, "cfg "+f)
+	}
+	nC := 5
+	if tier == "thorough" {
+		nC = 40
+	}
+	for i := 0; i < nC; i++ {
+		n := r.Range(2, 3)
+		var fs []string
+		for j := 0; j < n; j++ {
+			fs = append(fs, r.Pick(forms))
+		}
+		out = append(out, "cfg "+strings.Join(fs, ","))
+	}
+	// overload episodes with the real phout aggregator
+	nPh := 2
+	if tier == "thorough" {
+		nPh = 12
+	}
+	for i := 0; i < nPh; i++ {
+		out = append(out, fmt.Sprintf("ph %d %d %d %d", r.Range(3, 6), r.Range(4, 10), r.Range(30, 80), 2))
+	}
 	// composite rps profiles: finite segments, pauses, an unlimited tail of short duration
 	nP := 14
 	if tier == "thorough" {
@@ -880,6 +1092,10 @@ func gen(r *vh.Rand, tier string) []string {
 }
 
 func main() {
+	if len(os.Args) > 2 && os.Args[1] == "clisub" {
+		cliSub(os.Args[2])
+		return
+	}
 	go canary()
 	vh.Main(gen, func(cases []string) []string {
 		out := make([]string, len(cases))
@@ -891,7 +1107,7 @@ func main() {
 			go func(i int, c string) {
 				defer wg.Done()
 				defer func() { <-sem }()
-				out[i] = runCase(c)
+				out[i] = runCase(c, i)
 			}(i, c)
 		}
 		wg.Wait()
